@@ -43,7 +43,30 @@ def gbal(r):
     return g
 
 
+def cap_boundary_rates(r):
+    """Rate lists of legal rates whose sum sits at the 50 % cap: exactly 5000, one legal step below and above."""
+    target = r.choice([5000, 5000, 5000, 4990, 5010, 4999, 5001])
+    n = r.choice([17, 18, 20, 25])
+    base = [300] * (target // 300)
+    rest = target - sum(base)
+    while rest and rest < 10:          # the last entry must be a legal rate too
+        base[-1] -= 10
+        rest += 10
+    bps = base + ([rest] if rest else [])
+    while len(bps) < n and max(bps) >= 20:
+        i = bps.index(max(bps))
+        half = bps[i] // 2
+        if half < 10:
+            break
+        bps[i] -= half
+        bps.append(half)
+    r.shuffle(bps)
+    return [{"bps": b, "payout": r.choice(PAYOUTS), "last_updated": r.randint(1, 9999)} for b in bps[:25]]
+
+
 def rates(r):
+    if r.random() < 0.08:
+        return cap_boundary_rates(r)
     n = r.choice([0, 1, 1, 2, 3, 5, 16, 17, 18, 25])
     rs = []
     for _ in range(n):
